@@ -22,6 +22,107 @@ type State struct {
 	pcs    []*Term
 	isDead bool
 	pcMemo *Term
+	// literal facts implied syntactically by the conjuncts (atom → truth value), rebuilt lazily when pcs changes
+	atomMap  map[*Term]bool
+	atomLen  int
+	atomLast *Term
+}
+
+// atoms returns the literal facts of the path condition: every conjunct (flattened through And and through
+// negated Or) that is an atom or a negated atom.
+func (st *State) atoms() map[*Term]bool {
+	n := len(st.pcs)
+	var last *Term
+	if n > 0 {
+		last = st.pcs[n-1]
+	}
+	if st.atomMap != nil && st.atomLen == n && st.atomLast == last {
+		return st.atomMap
+	}
+	m := make(map[*Term]bool, 2*n)
+	var add func(t *Term, val bool)
+	add = func(t *Term, val bool) {
+		switch {
+		case t.Op == OpNot:
+			add(t.Args[0], !val)
+		case t.Op == OpAnd && val:
+			add(t.Args[0], true)
+			add(t.Args[1], true)
+		case t.Op == OpOr && !val:
+			add(t.Args[0], false)
+			add(t.Args[1], false)
+		default:
+			m[t] = val
+		}
+	}
+	for _, c := range st.pcs {
+		add(c, true)
+	}
+	st.atomMap, st.atomLen, st.atomLast = m, n, last
+	return m
+}
+
+// known evaluates a boolean term under the literal facts of the path condition: 1 true, 0 false, -1 unknown.
+func (st *State) known(t *Term) int {
+	if t.IsConst() {
+		if t.IsTrue() {
+			return 1
+		}
+		return 0
+	}
+	if len(st.pcs) == 0 {
+		return -1
+	}
+	return evalKnown(t, st.atoms(), 6)
+}
+
+func evalKnown(t *Term, atoms map[*Term]bool, depth int) int {
+	if t.IsConst() {
+		if t.IsTrue() {
+			return 1
+		}
+		return 0
+	}
+	if v, ok := atoms[t]; ok {
+		if v {
+			return 1
+		}
+		return 0
+	}
+	if depth == 0 || t.W != 0 {
+		return -1
+	}
+	switch t.Op {
+	case OpNot:
+		if v := evalKnown(t.Args[0], atoms, depth-1); v >= 0 {
+			return 1 - v
+		}
+	case OpAnd:
+		a, b := evalKnown(t.Args[0], atoms, depth-1), evalKnown(t.Args[1], atoms, depth-1)
+		if a == 0 || b == 0 {
+			return 0
+		}
+		if a == 1 && b == 1 {
+			return 1
+		}
+	case OpOr:
+		a, b := evalKnown(t.Args[0], atoms, depth-1), evalKnown(t.Args[1], atoms, depth-1)
+		if a == 1 || b == 1 {
+			return 1
+		}
+		if a == 0 && b == 0 {
+			return 0
+		}
+	case OpIte:
+		c := evalKnown(t.Args[0], atoms, depth-1)
+		if c == 1 {
+			return evalKnown(t.Args[1], atoms, depth-1)
+		}
+		if c == 0 {
+			return evalKnown(t.Args[2], atoms, depth-1)
+		}
+	}
+	return -1
 }
 
 func (st *State) dead() bool { return st.isDead }
@@ -185,6 +286,7 @@ type Exec struct {
 	feasTag string
 	rub     []*rubCtx
 	curInstr ssa.Instruction
+	ufApps   map[string][]ufApp
 	tracked    map[int]string
 	accesses   []AccessEvent
 	lockHook   Value
@@ -523,7 +625,7 @@ func (ex *Exec) forkN(st *State, fr *Frame, guards []*Term, body func(i int, st 
 	// single feasible guard fast path
 	var idx []int
 	for i, g := range guards {
-		if g.IsFalse() {
+		if g.IsFalse() || st.known(g) == 0 {
 			continue
 		}
 		idx = append(idx, i)
@@ -754,6 +856,9 @@ func (ex *Exec) run(st *State, fr *Frame, b *ssa.BasicBlock, stop *ssa.BasicBloc
 				return false
 			case *ssa.If:
 				c := ex.get(fr, in.Cond).(*Term)
+				if k := st.known(c); k >= 0 {
+					c = Bool(k == 1)
+				}
 				if c.IsTrue() {
 					next = b.Succs[0]
 				} else if c.IsFalse() {
